@@ -55,13 +55,20 @@ type Beh struct {
 	Mask       uint8
 	Restart    bool
 	NegErr     bool
+	// Layer: a restarting Negotiate returns a new connection layer (a wrapper that is not the
+	// session's connection) instead of session.Conn()
+	Layer bool
 }
 
 func (b Beh) Name() string { return fmt.Sprintf("%d.%d", b.NS, b.Loc) }
 
 func (b Beh) Enc() string {
-	return fmt.Sprintf("%s:%d:%d:%s:%s:%s:%s:%d:%s:%s", b.Name(), b.Nec, b.Proh, common.B(b.Negotiable),
+	s := fmt.Sprintf("%s:%d:%d:%s:%s:%s:%s:%d:%s:%s", b.Name(), b.Nec, b.Proh, common.B(b.Negotiable),
 		common.B(b.ListReq), common.B(b.ListErr), common.B(b.ParseErr), b.Mask, common.B(b.Restart), common.B(b.NegErr))
+	if b.Layer {
+		s += ":1"
+	}
+	return s
 }
 
 func (b Beh) Eligible(st uint8) bool { return st&b.Nec == b.Nec && st&b.Proh == 0 }
@@ -97,6 +104,9 @@ type Item struct {
 func (it Item) Enc() string {
 	switch it.Kind {
 	case 'H':
+		if it.NS == 1 {
+			return "Hx"
+		}
 		return "H" + common.B(it.OK)
 	case 'A':
 		var s []string
@@ -139,9 +149,16 @@ type Case struct {
 	Cfg    []Beh
 	Script []Item
 	Fault  string // "-", "k", "k+", "Cn" (cancel the context once n events were observed)
+	// Tee: the StreamConfig carries TeeIn and TeeOut.
+	Tee bool
 	// Block: a read at the end of the script blocks until the connection's deadline passes
 	// (what a silent peer looks like on a transport with deadlines) instead of returning EOF.
 	Block bool
+	// Custom, when set, is called instead of NewSession/ReceiveSession with the default
+	// negotiator (other front-ends, e.g. the component handshake); Render then produces the bytes
+	// of the script items.
+	Custom func(ctx context.Context, c net.Conn) (*xmpp.Session, error)
+	Render func(it Item, pos int) []byte
 	// Peer, when set, supplies items once Script is exhausted (nil, false = end of input);
 	// the items it supplies are appended to the script of the result.
 	Peer func(v *View) (Item, bool)
@@ -174,14 +191,22 @@ func (e Event) String(cfg []Beh) string {
 			return "R"
 		case "eof":
 			return "Re"
+		case "blocked":
+			return "Rb"
 		}
 		return "R!"
 	case "Wh", "Wp", "Wo":
+		if e.Res == "blocked" {
+			return "Wb"
+		}
 		if e.Res != "ok" {
 			return e.Kind + "!"
 		}
 		return e.Kind
 	case "Wl":
+		if e.Res == "blocked" {
+			return "Wb"
+		}
 		if e.Res != "ok" {
 			return "Wl!"
 		}
@@ -217,6 +242,9 @@ func (c Case) Line(r Result) string {
 	if c.Block {
 		flags += "b"
 	}
+	if c.Tee {
+		flags += "t"
+	}
 	return fmt.Sprintf("run %d %s %s %s %s %s", c.St0, flags, EncCfg(c.Cfg), EncScript(r.Script), common.Join(r.Picks, ","), c.Fault)
 }
 
@@ -230,29 +258,51 @@ var (
 	errCB    = errors.New("harness: scripted callback error")
 )
 
+// faultSpec is the decoded `fault` field: `/`-separated parts `k` / `k+` (failing operations),
+// `Cn` (cancel after n events), `CB` (cancel as soon as an operation blocks), `Hk` (operation k
+// blocks until its deadline passes), `Bk` = `CB/Hk`.
 type faultSpec struct {
-	k      int
-	from   bool
-	none   bool
-	cancel bool // k = number of events after which the context is cancelled
+	k        int
+	from     bool
+	none     bool // no failing operation
+	cancel   bool // cancelAt = number of events after which the context is cancelled
+	cancelAt int
+	cancelB  bool // cancel when an operation blocks
+	block    int  // index of the blocking operation (-1 none)
 }
 
 func parseFault(s string) (faultSpec, error) {
-	if s == "-" || s == "" {
-		return faultSpec{none: true}, nil
+	f := faultSpec{none: true, block: -1}
+	if s == "" {
+		return f, nil
 	}
-	f := faultSpec{}
-	if strings.HasPrefix(s, "C") {
-		k, err := strconv.Atoi(s[1:])
-		return faultSpec{none: true, cancel: true, k: k}, err
+	for _, part := range strings.Split(s, "/") {
+		var err error
+		switch {
+		case part == "-":
+		case part == "CB":
+			f.cancelB = true
+		case strings.HasPrefix(part, "C"):
+			f.cancel = true
+			f.cancelAt, err = strconv.Atoi(part[1:])
+		case strings.HasPrefix(part, "H"):
+			f.block, err = strconv.Atoi(part[1:])
+		case strings.HasPrefix(part, "B"):
+			f.cancelB = true
+			f.block, err = strconv.Atoi(part[1:])
+		default:
+			f.none = false
+			if strings.HasSuffix(part, "+") {
+				f.from = true
+				part = part[:len(part)-1]
+			}
+			f.k, err = strconv.Atoi(part)
+		}
+		if err != nil {
+			return f, err
+		}
 	}
-	if strings.HasSuffix(s, "+") {
-		f.from = true
-		s = s[:len(s)-1]
-	}
-	k, err := strconv.Atoi(s)
-	f.k = k
-	return f, err
+	return f, nil
 }
 
 func (f faultSpec) at(i int) bool {
@@ -281,8 +331,10 @@ type runState struct {
 	cancel    context.CancelFunc
 	cancelled bool
 	dmu       sync.Mutex
-	deadline  time.Time
-	past      chan struct{} // closed when a deadline in the past has been set
+	rdl, wdl  time.Time     // read and write deadline of the connection
+	pastR     chan struct{} // closed when a read deadline in the past has been set
+	pastW     chan struct{}
+	gaveUp    map[bool]bool
 }
 
 // add records an event (r.mu held) and cancels the context when the case asks for it.
@@ -292,37 +344,75 @@ func (r *runState) add(e Event) {
 }
 
 func (r *runState) maybeCancel() {
-	if r.fault.cancel && !r.cancelled && len(r.events) >= r.fault.k {
+	hit := r.fault.cancel && len(r.events) >= r.fault.cancelAt
+	if r.fault.cancelB && len(r.events) > 0 && r.events[len(r.events)-1].Res == "blocked" {
+		hit = true
+	}
+	if hit && !r.cancelled {
 		r.cancelled = true
 		r.cancel()
 	}
 }
 
-// expired reports whether the connection's deadline has passed; once the context has been
-// cancelled it first gives the library's deadline goroutine time to act.
-func (r *runState) expired(wait time.Duration) bool {
-	if r.cancelled && wait > 0 {
+// expired reports whether the connection's read (wr = false) or write deadline has passed;
+// once the context has been cancelled it first gives the library's deadline goroutine time to
+// act.
+func (r *runState) expired(wr bool, wait time.Duration) bool {
+	if r.cancelled && wait > 0 && !r.gaveUp[wr] {
+		ch := r.pastR
+		if wr {
+			ch = r.pastW
+		}
 		select {
-		case <-r.past:
+		case <-ch:
 		case <-time.After(wait):
+			// the watcher does not move this deadline: do not wait for it again
+			r.gaveUp[wr] = true
 		}
 	}
 	r.dmu.Lock()
 	defer r.dmu.Unlock()
-	return !r.deadline.IsZero() && r.deadline.Before(time.Now())
+	d := r.rdl
+	if wr {
+		d = r.wdl
+	}
+	return !d.IsZero() && d.Before(time.Now())
 }
 
-func (r *runState) setDeadline(t time.Time) {
+func (r *runState) setDeadline(t time.Time, rd, wr bool) {
 	r.dmu.Lock()
 	defer r.dmu.Unlock()
-	r.deadline = t
-	if !t.IsZero() && t.Before(time.Now()) {
+	past := !t.IsZero() && t.Before(time.Now())
+	mark := func(ch chan struct{}) {
 		select {
-		case <-r.past:
+		case <-ch:
 		default:
-			close(r.past)
+			close(ch)
 		}
 	}
+	if rd {
+		r.rdl = t
+		if past {
+			mark(r.pastR)
+		}
+	}
+	if wr {
+		r.wdl = t
+		if past {
+			mark(r.pastW)
+		}
+	}
+}
+
+// blockUntilDeadline emulates an operation that does not complete (r.mu held on entry and
+// exit): it waits until the deadline of its direction is in the past. If that does not happen
+// the watchdog of Exec reports the stall; the goroutine itself gives up later.
+func (r *runState) blockUntilDeadline(wr bool) {
+	r.mu.Unlock()
+	for i := 0; i < 400 && !r.expired(wr, 0); i++ {
+		time.Sleep(5 * time.Millisecond)
+	}
+	r.mu.Lock()
 }
 
 func (r *runState) state() uint8 {
@@ -342,9 +432,9 @@ func (addr) String() string  { return "mem" }
 func (c conn) Close() error                       { return nil }
 func (c conn) LocalAddr() net.Addr                { return addr{} }
 func (c conn) RemoteAddr() net.Addr               { return addr{} }
-func (c conn) SetDeadline(t time.Time) error      { c.r.setDeadline(t); return nil }
-func (c conn) SetReadDeadline(t time.Time) error  { c.r.setDeadline(t); return nil }
-func (c conn) SetWriteDeadline(t time.Time) error { c.r.setDeadline(t); return nil }
+func (c conn) SetDeadline(t time.Time) error      { c.r.setDeadline(t, true, true); return nil }
+func (c conn) SetReadDeadline(t time.Time) error  { c.r.setDeadline(t, true, false); return nil }
+func (c conn) SetWriteDeadline(t time.Time) error { c.r.setDeadline(t, false, true); return nil }
 
 func (c conn) Read(p []byte) (int, error) {
 	r := c.r
@@ -362,7 +452,14 @@ func (c conn) Read(p []byte) (int, error) {
 		r.add(Event{Kind: "R", Res: "fault", St: st})
 		return 0, errFault
 	}
-	if r.expired(300 * time.Millisecond) {
+	if r.expired(false, 300*time.Millisecond) {
+		r.add(Event{Kind: "R", Res: "fault", St: st})
+		return 0, os.ErrDeadlineExceeded
+	}
+	if idx == r.fault.block {
+		// the peer is silent: the read returns only when its deadline passes
+		r.add(Event{Kind: "R", Res: "blocked", St: st})
+		r.blockUntilDeadline(false)
 		r.add(Event{Kind: "R", Res: "fault", St: st})
 		return 0, os.ErrDeadlineExceeded
 	}
@@ -375,11 +472,7 @@ func (c conn) Read(p []byte) (int, error) {
 		if r.cs.Block {
 			// a silent peer: the read blocks until the deadline is in the past (if that
 			// never happens the watchdog of Exec reports a stall)
-			r.mu.Unlock()
-			for i := 0; i < 2000 && !r.expired(0); i++ {
-				time.Sleep(10 * time.Millisecond)
-			}
-			r.mu.Lock()
+			r.blockUntilDeadline(false)
 			r.add(Event{Kind: "R", Res: "fault", St: st})
 			return 0, os.ErrDeadlineExceeded
 		}
@@ -388,7 +481,12 @@ func (c conn) Read(p []byte) (int, error) {
 	}
 	it := r.script[r.pos]
 	r.add(Event{Kind: "R", Res: "got", Item: r.pos, St: st})
-	b := render(it, r.pos, r.server, r.s2s, r.cs.WS)
+	var b []byte
+	if r.cs.Render != nil {
+		b = r.cs.Render(it, r.pos)
+	} else {
+		b = render(it, r.pos, r.server, r.s2s, r.cs.WS)
+	}
 	r.pos++
 	n := copy(p, b)
 	r.rest = append([]byte(nil), b[n:]...)
@@ -408,7 +506,17 @@ func (c conn) Write(p []byte) (int, error) {
 		r.add(e)
 		return 0, errFault
 	}
-	if r.expired(300 * time.Millisecond) {
+	if r.expired(true, 300*time.Millisecond) {
+		e.Res = "fault"
+		r.add(e)
+		return 0, os.ErrDeadlineExceeded
+	}
+	if idx == r.fault.block && e.Kind != "Wp" {
+		// the peer does not read: the write returns only when its deadline passes
+		b := e
+		b.Res = "blocked"
+		r.add(b)
+		r.blockUntilDeadline(true)
 		e.Res = "fault"
 		r.add(e)
 		return 0, os.ErrDeadlineExceeded
@@ -488,7 +596,11 @@ func render(it Item, pos int, server, s2s, ws bool) []byte {
 			attrs["from"] = "example.net"
 		}
 		name := "stream:stream"
-		if !it.OK {
+		if it.NS == 1 {
+			// a good header of the other framing
+			ws = !ws
+		}
+		if !it.OK && it.NS != 1 {
 			v := pos % 5
 			if server && (v == 1 || v == 3) {
 				v = 0
@@ -638,6 +750,9 @@ func (r *runState) features() []xmpp.StreamFeature {
 				var rw io.ReadWriter
 				if b.Restart {
 					rw = s.Conn()
+					if b.Layer {
+						rw = layerConn{s.Conn()}
+					}
 				}
 				if b.NegErr {
 					return xmpp.SessionState(b.Mask), rw, errCB
@@ -657,7 +772,7 @@ func Exec(cs Case) Result {
 		return Result{Outcome: "BADCASE", Err: err.Error()}
 	}
 	r := &runState{cs: &cs, fault: fs, script: append([]Item(nil), cs.Script...),
-		server: cs.St0&Received != 0, s2s: cs.St0&S2S != 0, past: make(chan struct{})}
+		server: cs.St0&Received != 0, s2s: cs.St0&S2S != 0, pastR: make(chan struct{}), pastW: make(chan struct{}), gaveUp: map[bool]bool{}}
 	ctx, cancel := context.WithCancel(context.Background())
 	defer cancel()
 	r.cancel = cancel
@@ -670,6 +785,9 @@ func Exec(cs Case) Result {
 			r.mu.Lock()
 			r.sess = s
 			r.mu.Unlock()
+		}
+		if cs.Tee {
+			return xmpp.StreamConfig{Features: feats, TeeIn: io.Discard, TeeOut: io.Discard}
 		}
 		return xmpp.StreamConfig{Features: feats}
 	}
@@ -698,7 +816,9 @@ func Exec(cs Case) Result {
 		if r.s2s {
 			origin = jid.MustParse("example.org")
 		}
-		if r.server {
+		if cs.Custom != nil {
+			out.s, out.err = cs.Custom(ctx, conn{r})
+		} else if r.server {
 			out.s, out.err = xmpp.ReceiveSession(ctx, conn{r}, xmpp.SessionState(cs.St0), neg)
 		} else {
 			out.s, out.err = xmpp.NewSession(ctx, location, origin, conn{r}, xmpp.SessionState(cs.St0), neg)
@@ -726,7 +846,7 @@ func Exec(cs Case) Result {
 				res.State = r.state()
 			}
 		}
-	case <-time.After(10 * time.Second):
+	case <-time.After(watchdog(cs, fs)):
 		r.mu.Lock()
 		defer r.mu.Unlock()
 		res.Events = append([]Event(nil), r.events...)
@@ -759,10 +879,11 @@ func ParseLine(line string) (Case, error) {
 	cs.St0 = uint8(st)
 	cs.WS = strings.HasPrefix(f[2], "1")
 	cs.Block = strings.Contains(f[2], "b")
+	cs.Tee = strings.Contains(f[2], "t")
 	if f[3] != "-" {
 		for _, s := range strings.Split(f[3], ";") {
 			p := strings.Split(s, ":")
-			if len(p) != 10 {
+			if len(p) != 10 && len(p) != 11 {
 				return cs, fmt.Errorf("bad feature %q", s)
 			}
 			var b Beh
@@ -781,6 +902,7 @@ func ParseLine(line string) (Case, error) {
 			b.Mask = uint8(n)
 			b.Restart = p[8] == "1"
 			b.NegErr = p[9] == "1"
+			b.Layer = len(p) == 11 && p[10] == "1"
 			cs.Cfg = append(cs.Cfg, b)
 		}
 	}
@@ -790,6 +912,9 @@ func ParseLine(line string) (Case, error) {
 			switch s[0] {
 			case 'H':
 				it.OK = s == "H1"
+				if s == "Hx" {
+					it.NS = 1
+				}
 			case 'A':
 				if len(s) > 1 {
 					for _, a := range strings.Split(s[1:], ",") {
@@ -828,3 +953,16 @@ func isUnexpectedEOF(err error) bool {
 	var se *xml.SyntaxError
 	return errors.As(err, &se) && strings.Contains(se.Msg, "unexpected EOF")
 }
+
+// watchdog: how long Exec waits for the constructor to return. Cases with a blocking operation
+// are expected to end quickly (or never), so they get a short one.
+func watchdog(cs Case, fs faultSpec) time.Duration {
+	if fs.block >= 0 {
+		return 1200 * time.Millisecond
+	}
+	return 10 * time.Second
+}
+
+// layerConn is a new connection layer on top of the session's connection (what STARTTLS
+// returns): a net.Conn that is not the session's own connection.
+type layerConn struct{ net.Conn }
